@@ -431,11 +431,12 @@ Definition parse_chars (line : chars) : outcome :=
             else Unmodelled
       else if is_digit c then
         let (n, r1) := span is_digit l in
-        let r2 := skip r1 in
-        let r3 := match r2 with
-                  | x :: r' => if one_of "bBfF" x then skip r' else r2
-                  | [] => r2
+        (* the optional b/f suffix must be adjacent to the number (pyparsing leaveWhitespace) *)
+        let r2 := match r1 with
+                  | x :: r' => if one_of "bBfF" x then r' else r1
+                  | [] => r1
                   end in
+        let r3 := skip r2 in
         if hd_eqb ":" r3 then label_tail n (tl r3) else Unmodelled
       else Unmodelled
   end.
